@@ -226,18 +226,25 @@ def run(ctx):
             oc = outcome(b)
             sym = oc.sym
 
-            def lit(bd, s_, bb):
+            def lit(bd, s_, bb, size=fixed[adt].get("size")):
+                # the literal `announced length == size of the struct` (as `==` or `!=`, either operand order; the size as
+                # size_of::<Self>(), a constant with that value, or the length of the value's own byte image)
                 t = bd.term(bb)
                 if t["t"] != "switch" or t.get("dty") != "bool":
                     return None
                 at = bool_atom(s_.operand(t["discr"]))
                 if not at or at[0] != "eq" or at[2] is None:
                     return None
-                ra, rb = render(at[1]), render(at[2])
-                pair = {ra, rb}
-                has_len = any(re.search(r"Header::length\(", x) for x in pair)
-                has_size = any(re.search(r"mem::size_of\(\)|slice::len\(.*as_ref|len\(.*\$res|len\(.*res", x) for x in pair)
-                if not (has_len and has_size):
+
+                def is_len(x):
+                    return _is_announced_length(x)
+
+                def is_size(x):
+                    v = int_value(x, f)
+                    if v is not None:
+                        return v == size
+                    return re.search(r"slice::len\(.*as_ref|len\(.*\$res|len\(.*res", render(x)) is not None
+                if not ((is_len(at[1]) and is_size(at[2])) or (is_len(at[2]) and is_size(at[1]))):
                     return None
                 e = switch_bool_edges(bd, bb)
                 return [(bb, e[1] if at[3] else e[0])]
@@ -258,6 +265,11 @@ def run(ctx):
                 g = eq_matcher(r"Header::pdu\(", r"^%s$" % (pdu_c.get("v") if pdu_c else "?"))
                 mp = MustPass(f, lambda c: False, guard_fn=lambda bd, s_, bb, g=g: guard_edges(bd, s_, bb, g), name="pdu type")
                 okp = mp.holds(n)
+                if not okp and pdu_c:
+                    # the same fact whatever the spelling of the test (field or accessor, `match`, flipped comparison):
+                    # of the 256 values of the type octet only the PDU's own can end in success
+                    split = octet_split(f, b, lambda t: is_header_field(f, t, "pdu"))
+                    okp = split is not None and [v for v, r in sorted(split.items()) if r & set(b.return_blocks())] == [pdu_c.get("v")]
                 ctx.ob("R-GRD", "%s::%s:type-guard" % (short(adt), meth), okp,
                        "%s::%s succeeds only for its own PDU type" % (short(adt), meth), where=b.loc,
                        detail=None if okp else K.why(f, mp, n))
